@@ -56,7 +56,7 @@ func attachRaceRound(t *testing.T, tok *int64, placed bool, rnd *rand.Rand, byRe
 	}
 	leaked := bubble(t, func(t *testing.T) {
 		ctx, cancel := context.WithCancel(context.Background())
-		rig := &pxRig{sc: pxScenario{ByRef: byRef}, orig: map[int64]*Rpc{}}
+		rig := &pxRig{sc: pxScenario{ByRef: byRef}, orig: map[int64]*Rpc{}, byId: map[uint64]int64{}}
 		src := NewEndpoint(pxName(1))
 		att := NewEndpoint(pxName(4)) // X's attached connection
 		att.ByRef = byRef
@@ -104,6 +104,7 @@ func attachRaceRound(t *testing.T, tok *int64, placed bool, rnd *rand.Rand, byRe
 			rpc := &Rpc{Id: uint64(*tok), Header: &goatorepo.RequestHeader{Method: "/x/y", Source: pxName(1), Destination: pxName(4)},
 				Body: &goatorepo.Body{Data: payloadOf(*tok)}}
 			rig.orig[*tok] = clone(rpc)
+			rig.byId[rpc.Id] = *tok
 			return rpc
 		}
 		first := mk()
